@@ -6,7 +6,8 @@
                                                                           driver rendered into env.d / arguments
     files:[{role:"merge"|"unmerge", p:path, c: incoming / recorded content,
             before:{live, pending:[{n, c}]}, after:{live, pending:[{n, c}]},   -- snapshots of the live fs
-            recorded:["real" | "cfg"]}]}                                       -- names in the merged contents
+            recorded:["real" | "cfg"],                                         -- names in the merged contents
+            nb:[{name, c}], na:[{name, c}]}]}            -- stray ._cfg-like files beside it, before / after
    One verdict per failing clause per FILE: <<"VERDICT", tid, j, clause>>, j = index into files.
    Pseudo clauses starting with "~" (row of the decision table that applied) are coverage
    information for the driver, not verdicts.                                                    *)
@@ -26,8 +27,10 @@ JudgeFile(e, f) ==
        \cup (IF Numbering(b, a, f.c, prot) THEN {} ELSE {"Numbering"})
        \cup (IF e.raised # "" \/ UpdateWritten(b, a, f.c, prot) THEN {} ELSE {"UpdateWritten"})
        \cup (IF e.raised # "" \/ RecordedName(b, f.c, prot, rec) THEN {} ELSE {"RecordedName"})
+       \cup (IF StraysKept(AsSet(f.nb), AsSet(f.na)) THEN {} ELSE {"StraysKept"})
   ELSE (IF MustKeep(b.live, f.c, prot) THEN {"~MustKeep"} ELSE {})
        \cup (IF UnmergeKept(b, a, f.c, prot) THEN {} ELSE {"UnmergeKept"})
+       \cup (IF StraysKept(AsSet(f.nb), AsSet(f.na)) THEN {} ELSE {"StraysKept"})
 
 TraceInit == l = 0
 TraceNext == /\ l < Len(Tr)
